@@ -104,19 +104,22 @@ Proof.
 Qed.
 
 (* the staged file is the source file as soon as [0, |f|) is complete *)
-Theorem staged_equals_source f pdus : Forall (truthful_fd f) pdus ->
-  is_complete (snd (stage pdus)) (N.of_nat (length f)) = true -> fst (stage pdus) = f.
+Lemma agrees_complete f st : agrees f st ->
+  is_complete (snd st) (N.of_nat (length f)) = true -> fst st = f.
 Proof.
-  intros Ht Hc. destruct (stage_agrees f pdus Ht) as (Hi & Hlen & Hag).
+  intros (Hi & Hlen & Hag) Hc.
   rewrite (complete_iff _ _ Hi) in Hc.
-  assert (Hl : length (fst (stage pdus)) = length f).
-  { destruct f as [|f0 ft] eqn:Ef; [cbn in Hlen; destruct (fst (stage pdus)); [reflexivity|cbn in Hlen; lia]|].
+  assert (Hl : length (fst st) = length f).
+  { destruct f as [|f0 ft] eqn:Ef; [cbn in Hlen; destruct (fst st); [reflexivity|cbn in Hlen; lia]|].
     rewrite <- Ef in *. assert (Hlast : N.of_nat (length f) - 1 < N.of_nat (length f)) by (rewrite Ef; cbn [length]; lia).
     destruct (Hag _ (Hc _ Hlast)) as (A & _). lia. }
   apply nth_ext with (d := 0) (d' := 0); [exact Hl|].
   intros i Hi'. assert (Hx : N.of_nat i < N.of_nat (length f)) by lia.
   destruct (Hag _ (Hc _ Hx)) as (_ & B). unfold byte_at in B. rewrite Nat2N.id in B. exact B.
 Qed.
+Theorem staged_equals_source f pdus : Forall (truthful_fd f) pdus ->
+  is_complete (snd (stage pdus)) (N.of_nat (length f)) = true -> fst (stage pdus) = f.
+Proof. intros Ht Hc. apply agrees_complete; [apply stage_agrees; exact Ht|exact Hc]. Qed.
 
 (* ---- glue with the receive-transaction model ---- *)
 Section Glue.
